@@ -112,6 +112,7 @@ type refState struct {
 	nanOnArray bool // a remove used a non-numeric last token on an array (outside C13's domain)
 	nullSlack  int64
 	idxOut     bool // the last error was an array index out of range (>= len, or < -len with negative indices on)
+	negUsedOff bool // the last error was a negative index while negative indices are off
 }
 
 // step moves from container cur through one intermediate token; nil = unreachable.
@@ -197,6 +198,7 @@ func (s *refState) get(con *JV, t Tok) (*JV, int) {
 		case ixNeg:
 			if !s.opts.NegIdx || v < -n {
 				s.idxOut = s.opts.NegIdx
+				s.negUsedOff = !s.opts.NegIdx
 				return nil, eOther
 			}
 			return con.Kids[n+v], eNone
@@ -232,6 +234,7 @@ func (s *refState) add(con *JV, t Tok, v *JV) int {
 			// dialect: position counted in the resulting array (add …/-1 appends)
 			if !s.opts.NegIdx || i < -(n+1) {
 				s.idxOut = s.opts.NegIdx
+				s.negUsedOff = !s.opts.NegIdx
 				return eOther
 			}
 			con.insElem(n+1+i, v)
@@ -270,6 +273,7 @@ func (s *refState) remove(con *JV, t Tok) (err int, skippable bool) {
 		case ixNeg:
 			if !s.opts.NegIdx {
 				s.negOff = true
+				s.negUsedOff = true
 				return eOther, false
 			}
 			if i < -n {
@@ -311,6 +315,7 @@ func (s *refState) replace(con *JV, t Tok, v *JV) int {
 		case ixNeg:
 			if !s.opts.NegIdx || i < -n {
 				s.idxOut = s.opts.NegIdx
+				s.negUsedOff = !s.opts.NegIdx
 				return eOther
 			}
 			con.Kids[n+i] = v
@@ -335,6 +340,7 @@ type RefResult struct {
 	CopyFromRootAfterEdit bool // a copy from "" that follows an operation (known finding KF-copy-root)
 	NullThenTest          bool // a test that reads a null stored by an earlier add/replace/copy/move (known finding KF-null-test)
 	IdxOut                bool // the failing operation failed on an array index out of range
+	NegUsedOff            bool // the failing operation used a negative index while negative indices are off
 }
 
 // refApply evaluates ops on a copy of doc. sizeOf (optional) measures a copied
@@ -346,6 +352,7 @@ func refApply(doc *JV, ops []Op, opts RefOpts, limit int64, sizeOf func(*JV) int
 	for i, op := range ops {
 		err := eNone
 		s.idxOut = false
+		s.negUsedOff = false
 		switch op.Kind {
 		case OpAdd:
 			err = s.opAdd(op)
@@ -376,6 +383,7 @@ func refApply(doc *JV, ops []Op, opts RefOpts, limit int64, sizeOf func(*JV) int
 			res.Err = err
 			res.FailedAt = i
 			res.IdxOut = s.idxOut && err == eOther
+			res.NegUsedOff = s.negUsedOff && err == eOther
 			res.NegOff, res.NaNOnArray = s.negOff, s.nanOnArray
 			return res
 		}
